@@ -63,6 +63,12 @@ func (inv execInvocation) GobEncode() ([]byte, error) {
 			}
 			continue
 		}
+		if arg == nil {
+			// An untyped nil argument (which typechecks for slice, map and
+			// pointer parameters) has no type for gob to encode: send the
+			// parameter's typed nil, as a local invocation does.
+			arg = reflect.Zero(typ).Interface()
+		}
 		if v := reflect.ValueOf(arg); v.Kind() == reflect.Ptr && v.IsNil() {
 			// gob panics on a top-level nil pointer.
 			return nil, fmt.Errorf("encoding arg %d of type %v: cannot encode nil pointer", i, typ)
